@@ -322,6 +322,15 @@ theorem C05_header_model_verdict_ok (names : List Name) (p : Pool) (reqs : List 
   rw [hnone]
   simp [headerRun_sticky]
 
+/-- Witness of the defect repaired by `fix: proxy refuses policy header without a header name`: the block parser used to
+accept `policy header` with no name, and `Header.Select` (`if r.Names == nil { return nil }`) then chose nobody for any
+request — judged incomplete on a pool of two available backends.  The parser now refuses the line
+(`headerConfigOk`), which is what `c05.hdr` expects of a case with no names. -/
+theorem C05_header_nameless_fails_witness :
+    headerVerdict [] [⟨false, 0, 0⟩, ⟨false, 0, 0⟩] [([], none)]
+      = "bad:incomplete:an available backend exists but none was chosen" ∧ headerConfigOk [] = false := by
+  decide
+
 /-- non-vacuity: `x-id` in the Casketfile, the header sent as `X-Id` and `X-ID`, on two lines; the counter stands
 elsewhere for the second request -/
 example : sameKey [[120, 45, 105, 100]] [([88, 45, 73, 100], [97]), ([88, 45, 73, 68], [98])]
